@@ -43,7 +43,12 @@ def cases(draw, max_nodes):
     if draw(st.sampled_from([True, False, False])):
         cfg["workers"] = len(spec["nodes"]) + draw(st.integers(1, 3))
     case = {"spec": spec, "cfg": cfg, "sched": draw(harness.schedules()), "registry": use_reg}
-    if draw(st.integers(0, 5)) == 0:
+    if draw(st.integers(0, 9)) == 0:
+        # a bundled progress display whose output sink fails persistently (unwritable report file): whatever the
+        # display does about it, run still returns and the display's thread has exited
+        case["sched"] = draw(harness.schedules(det_only=True))
+        case["failing_sink"] = draw(st.sampled_from(["always", "after_first"]))
+    elif draw(st.integers(0, 5)) == 0:
         # the OS refuses to start the k-th thread run asks for (thread / pid limit)
         case["sched"] = draw(harness.schedules(det_only=True))
         case["thread_start_fails"] = draw(st.integers(1, 2 * cfg["workers"]))
@@ -95,13 +100,34 @@ def check_case(ctx, case, record=True):
 
     tsf = case.get("thread_start_fails")
 
+    sink = case.get("failing_sink")
+    sink_calls = [0]
+
+    def failing_output(data):
+        sink_calls[0] += 1
+        if sink == "always" or sink_calls[0] > 1:
+            raise OSError(28, "injected: cannot write the progress report")
+
     def thunk():
         if tsf and sc.get("mode") != "real":
             from vlib import detsched
             detsched._current.fail_thread_start = tsf
+        if sink:
+            from uberjob.progress import html_progress
+            return w.run(cfg, registry=case["registry"], progress=html_progress(failing_output))
         return w.run(cfg, registry=case["registry"])
 
-    out = harness.execute(thunk, sc, after=after)
+    xkw = {}
+    if sink and sc.get("mode") != "real":
+        import uberjob.progress._simple_progress_observer as spo
+        from vlib import detsched
+        # the display's update thread runs on the model threading too (its timed waits fire at the scheduler's
+        # discretion); a display that keeps retrying a dead sink shows up as divergence / a thread that never exits
+        xkw = {"extra": [(spo, "threading", detsched.MODEL)], "max_steps": 300_000}
+    out = harness.execute(thunk, sc, after=after, **xkw)
+    if sink:
+        # the update thread dying of the sink's own error is the display's business, not a leak of run
+        out.uncaught = [u for u in out.uncaught if not isinstance(u[1], OSError)]
     fired = bool(tsf) and out.sched is not None and getattr(out.sched, "thread_starts", 0) >= tsf
     if out.mode == "real":
         time.sleep(0.001)
@@ -119,6 +145,8 @@ def check_case(ctx, case, record=True):
             cl.append("empty_plan")
         if fired:
             cl.append("thread_start_refused")
+        if sink:
+            cl.append("failing_display_sink:" + sink)
         nt = (workers >= 2 and nfail > 0) or workers > len(spec["nodes"]) or cyclic
         ctx.case(case, nt, cl)
     if fired and out.status == "ok" and not cyclic:
